@@ -57,6 +57,19 @@ structure StreamExt where
     broken length, not an offset to probe -/
 def lengthFits (start d : Nat) : Bool := decide (start + d ≤ 9223372036854775807)
 
+/-- the recovery path of `ReadStreamData` (missing or unusable `/Length`), the data starting at
+    `start`: the extent ends at the FIRST EOL byte that is followed by `endstream`
+    (`Find(endstreamPat)`; known finding `scan-stream-broken-by-endstream-line-in-data`: a line of
+    the data that starts with `endstream` ends the extent).  The range handed to
+    `trimTrailingEOL` includes the matched EOL byte (f33cd07, D-C20-1), so that exactly one EOL
+    marker — LF, CR or CR LF — is taken off and an EOL which ends the data itself is kept. -/
+def recoverExtent (file : Bytes) (start : Nat) : Except Err StreamExt :=
+  match findEolEndstream (file.drop start) with
+  | none => .error .malformed     -- io.EOF from Find, turned into "unexpected EOF while reading Stream"
+  | some i =>
+    let l := trimTrailingEOL ((file.drop start).take (i + 1))
+    .ok { start := start, len := l, after := start + i + 10 }
+
 /-- `ReadStreamData` with the scanner at absolute position `pos` (at the keyword `stream`);
     `declared` is the usable value of `/Length` (`getInt` succeeded and gave `n ≥ 0`).
     Errors are those after the deferred handler (EOF has become `malformed`). -/
@@ -72,14 +85,8 @@ def readStreamData (file : Bytes) (pos : Nat) (declared : Option Nat) : Except E
   | none => .error .malformed
   | some k =>
     let start := pos + 6 + k
-    let recover : Except Err StreamExt :=
-      match findEolEndstream (file.drop start) with
-      | none => .error .malformed     -- io.EOF from Find, turned into "unexpected EOF while reading Stream"
-      | some i =>
-        let l := trimTrailingEOL ((file.drop start).take i)
-        .ok { start := start, len := l, after := start + i + 10 }
     match declared with
-    | none => recover
+    | none => recoverExtent file start
     | some d =>
       if lengthFits start d && endstreamAt file (start + d) then
         -- Discard(l); SkipWhiteSpace; SkipString("endstream")
@@ -88,7 +95,7 @@ def readStreamData (file : Bytes) (pos : Nat) (declared : Option Nat) : Except E
         | (r, false) =>
           if startsWith r kwEndstream then .ok { start := start, len := d, after := file.length - r.length + 9 }
           else .error .malformed
-      else recover
+      else recoverExtent file start
 
 /-- what `ReadObject`/`ReadIndirectObject` return: a direct object or a stream -/
 inductive Val where
